@@ -174,10 +174,10 @@ func encoderInputs(rng *hlib.Rand, n int) []stdInput {
 		b.Reset()
 		w, h := rng.Range(3, 20), rng.Range(3, 20)
 		png.Encode(&b, someImage(rng, w, h, i%3))
-		add("png", fmt.Sprintf("go-png-%dx%d-k%d", w, h, i%3), append([]byte(nil), b.Bytes()...))
+		add("png", fmt.Sprintf("go-png-%dx%d-k%d-%d", w, h, i%3, i), append([]byte(nil), b.Bytes()...))
 		b.Reset()
 		jpeg.Encode(&b, someImage(rng, w, h, i%2), &jpeg.Options{Quality: []int{30, 75, 95}[i%3]})
-		add("jpeg", fmt.Sprintf("go-jpeg-%dx%d-k%d", w, h, i%2), append([]byte(nil), b.Bytes()...))
+		add("jpeg", fmt.Sprintf("go-jpeg-%dx%d-k%d-%d", w, h, i%2, i), append([]byte(nil), b.Bytes()...))
 		b.Reset()
 		g := &gif.GIF{}
 		for f := 0; f < 1+i%3; f++ {
@@ -185,10 +185,10 @@ func encoderInputs(rng *hlib.Rand, n int) []stdInput {
 			g.Delay = append(g.Delay, 3)
 		}
 		gif.EncodeAll(&b, g)
-		add("gif", fmt.Sprintf("go-gif-%dx%d-f%d", w, h, 1+i%3), append([]byte(nil), b.Bytes()...))
+		add("gif", fmt.Sprintf("go-gif-%dx%d-f%d-%d", w, h, 1+i%3, i), append([]byte(nil), b.Bytes()...))
 		// netpbm is simple enough to write by hand
 		pix := rng.Bytes(w * h * 3)
-		add("netpbm", fmt.Sprintf("ppm-%dx%d", w, h), append([]byte(fmt.Sprintf("P6\n%d %d\n255\n", w, h)), pix...))
+		add("netpbm", fmt.Sprintf("ppm-%dx%d-%d", w, h, i), append([]byte(fmt.Sprintf("P6\n%d %d\n255\n", w, h)), pix...))
 	}
 	return out
 }
@@ -479,7 +479,7 @@ func sectionD(r *hlib.Run) {
 	oneshot := map[string]stdRes{}
 	for _, j := range jobs {
 		one := j.res[0]
-		key := j.in.codec + "/" + j.in.name
+		key := j.in.codec + "/" + j.in.name + "/" + hlib.Hex(j.in.data)[:min(len(hlib.Hex(j.in.data)), 64)] + fmt.Sprint(len(j.in.data))
 		if prev, ok := oneshot[key]; ok {
 			if same, why := sameStd(prev, one, have[j.in.codec] == 'K'); !same && prev.crash == "" && one.crash == "" {
 				r.Fail("flavour-mismatch:"+j.in.codec, "gcc -O2 and ASan/UBSan builds of std disagree on a one-shot run: "+why,
@@ -516,6 +516,10 @@ func sectionD(r *hlib.Run) {
 					key = "split-dependent:lzma-dst-reused-after-replacement"
 				} else if j.kinds[k] == "known:lzma-workbuf" && rr.status == "#base:_bad_workbuf_length" {
 					key = "split-dependent:lzma-bad-workbuf-length-on-suspension"
+				} else if j.in.codec == "xz" && xzHasNonFinalFilters(j.in.data) && rr.crash == "" {
+					// third known defect: std/xz's BCJ (non-final) filters mis-convert around a
+					// suspension (KNOWN_FINDINGS); every split of such a file may show it
+					key = "split-dependent:xz-bcj-filter-across-suspension"
 				} else if rr.crash != "" {
 					key = "crash:" + j.in.codec + ":" + rr.crash
 				}
@@ -530,6 +534,12 @@ func sectionD(r *hlib.Run) {
 	for _, d := range ds {
 		d.Close()
 	}
+}
+
+// xzHasNonFinalFilters: the first block header of an xz file lists more than one filter (the
+// last one is LZMA2, the others are BCJ / delta filters applied to its output).
+func xzHasNonFinalFilters(b []byte) bool {
+	return len(b) > 14 && bytes.Equal(b[:6], []byte{0xFD, '7', 'z', 'X', 'Z', 0}) && b[13]&3 != 0
 }
 
 // genTables writes Gen/C05_Tables.lean: builtin.go's readMethods rows.
